@@ -792,7 +792,6 @@ func offsetInitValue(P *Prog, g *ssa.Global) (int64, bool) {
 	return eval(stores[0].Val, 0)
 }
 
-
 // checkSeedTimeBase (C06-S7): whatever New derives from the start time for a
 // constellation's state is computed on that constellation's own time scale
 // (it depends on the constellation's offset), not on raw UTC.
